@@ -11,6 +11,7 @@ import (
 
 	"github.com/gregoryv/mq"
 
+	"verif/drv"
 	"verif/gen"
 	"verif/link"
 	"verif/ref"
@@ -284,6 +285,36 @@ func runC10(c *sim.Ctx) *sim.Violation {
 		if berr != nil {
 			return sim.V("C10/"+typ+"/build", "cannot build %s through the API: %v", typ, berr)
 		}
+	}
+	if cn, ok := p.(*mq.Connect); ok && malformed == "" && origin == "built through the API" && t.Bool(1, 4) {
+		// the program attaches a will and then goes on using ITS message (the
+		// *Publish it passed to SetWill): other payload, topic, QoS, one more user
+		// property. Whether the CONNECT follows such changes or keeps what it saw at
+		// SetWill time is the library's choice; whatever it writes must be one frame,
+		// counted and announced truly
+		g := gen.NewG(t, c.Thorough, 0)
+		wl := &ref.Will{Topic: []byte("will/first"), Payload: g.Bin(g.Len1()), QoS: uint8(t.Int(3)), Retain: t.Bool(1, 2)}
+		var w *mq.Publish
+		sim.Guard(func() {
+			w = drv.BuildWill(wl)
+			cn.SetWill(w)
+			for k := 1 + t.Int(3); k > 0; k-- {
+				switch t.Int(5) {
+				case 0:
+					w.SetPayload(g.Bin(g.Len()))
+				case 1:
+					w.SetTopicName(string(g.Str(g.Len1())))
+				case 2:
+					w.AddUserProp("late", string(g.Str(g.Len())))
+				case 3:
+					w.SetQoS(uint8(t.Int(3)))
+				default:
+					w.SetContentType(string(g.Str(g.Len())))
+				}
+			}
+		})
+		origin = "built through the API, the will message changed by the program after SetWill"
+		c.Count("probe.will-message-changed-after-SetWill")
 	}
 	if sub, ok := p.(*mq.Subscribe); ok && malformed == "" && origin == "built through the API" && t.Bool(1, 8) {
 		// SetSubscriptionID takes an int: identifiers beyond 268 435 455 are
